@@ -125,6 +125,18 @@ func SameGeometry(what string, got, want []oracle.Seg, tol float64) error {
 	match := func(a, b Sub) bool {
 		return a.Closed == b.Closed && a.Start.Dist(b.Start) <= tol && a.End.Dist(b.End) <= tol
 	}
+	// subpaths that are clearly negligible go first (otherwise an empty subpath could be matched with a real one that
+	// starts and ends in the same point)
+	drop := func(in []Sub) []Sub {
+		var out []Sub
+		for _, x := range in {
+			if length(x) > tol/4 {
+				out = append(out, x)
+			}
+		}
+		return out
+	}
+	sg, sw = drop(sg), drop(sw)
 	i, j := 0, 0
 	for i < len(sg) || j < len(sw) {
 		switch {
